@@ -2,7 +2,6 @@
 #include "world.hpp"
 namespace djsim
 {
-bool World::exec_table_op(const Step&) { return false; }
 bool World::exec_foreign_op(const Step&) { return false; }
 bool World::exec_hostile_op(const Step&) { return false; }
 }  // namespace djsim
